@@ -2,14 +2,14 @@ import Driver.Frame
 import KrakenModel.Model.OriginCrash
 /-
   Driver for C05 (machine `oc`).  Records:
-    cfg blobs=<xhex,…> pl=<n> wps=<n> mem=<0|1> names=<hex digest,…> mis=<xhex,…> [crash=…] [mon=0]
+    cfg blobs=<xhex,…> pl=<n> wps=<n> mem=<0|1> names=<hex digest,…> mis=<xhex,…> [crash=…] [mon=0] [skip=1]
     fs <tree>                                   the tree the first process starts on
     begin <op> | <result and tree>              the operation whose crash points follow
     plan <call>…                                its recorded syscalls (last access times and made-up upload names canonical)
     crash k=<n> ord=<files> at=<label> => fs=<tree> start=ok ls=<names> {| n=<name> rd= h= gm= [rf= rd2= h2= gm2=]} | fs2=<tree>
     planchk =>                                  the plan comparison
     op ustart <u> | uwrite <u> <off> <xhex> | commit <u> b<i> | persist b<i> | genmeta b<i> | refresh b<i> <xhex>
-       | read b<i> | getmeta b<i> | restart => <result> fs=<tree>
+       | read b<i> | getmeta b<i> | delete b<i> | restart => <result> fs=<tree>
 -/
 open Driver KrakenModel.FS KrakenModel.OriginCrash
 
@@ -81,8 +81,8 @@ def Tab.genMI (t : Tab) (b : Bytes) : Bytes :=
   | some i => t.mis.getD i []
   | none => []
 
-def mkCfg (t : Tab) (wps : Nat) (mem : Bool) : Cfg :=
-  { wps, lat := [76, 65, 84], mem, digest := t.digest, genMI := t.genMI, metaOK := fun b => t.mis.contains b }
+def mkCfg (t : Tab) (wps : Nat) (mem : Bool) (verify : Bool := true) : Cfg :=
+  { wps, lat := [76, 65, 84], mem, verify, digest := t.digest, genMI := t.genMI, metaOK := fun b => t.mis.contains b }
 
 def blobName? (t : Tab) (tok : String) : Option String :=
   match tok.toList with
@@ -99,6 +99,7 @@ def op? (t : Tab) (args : List String) : Option Op :=
   | ["refresh", b, x] => do pure (.refresh (← blobName? t b) (← bytes? x))
   | ["read", b] => do pure (.read (← blobName? t b))
   | ["getmeta", b] => do pure (.getmeta (← blobName? t b))
+  | ["delete", b] => do pure (.delete (← blobName? t b))
   | ["restart"] => some .restart
   | _ => none
 
@@ -113,6 +114,7 @@ def resToks (t : Tab) (op : Op) (r : Res) : List String :=
   match r with
   | .ok => ["ok"] | .exist => ["exist"] | .notFound => ["notfound"] | .verifyFail => ["verifyfail"]
   | .errOther => ["err-other"]
+  | .persisted => ["persisted"]
   | .bytes b =>
     let n := match op with | .read n => n | _ => ""
     [s!"bytes={bytesTok b}", s!"h={boolTok (t.digest b = n)}"]
@@ -120,6 +122,7 @@ def resToks (t : Tab) (op : Op) (r : Res) : List String :=
     let n := match op with | .getmeta n => n | _ => ""
     [metaTok t n m]
   | .absent => ["absent"]
+  | .accepted => ["accepted"]
 
 /-- removal order used by a recorded plan -/
 def orderOf (plan : List String) : Order Name :=
@@ -151,7 +154,8 @@ def init (toks : List String) : Option St := do
   let names := list? ((kv? toks "names").getD "-")
   let n (k : String) (d : Nat) := ((kv? toks k).bind (·.toNat?)).getD d
   let tab : Tab := { blobs, names, mis }
-  pure { tab, cfg := mkCfg tab (n "wps" 0) (n "mem" 0 = 1), mon := (kv? toks "mon") ≠ some "0" }
+  -- with SkipHashVerification the property's premise is gone (stated assumption): compared, not monitored
+  pure { tab, cfg := mkCfg tab (n "wps" 0) (n "mem" 0 = 1) (n "skip" 0 ≠ 1), mon := (kv? toks "mon") ≠ some "0" ∧ n "skip" 0 ≠ 1 }
 
 def modelPlan (s : St) (o : Order Name) : List (Call Name) :=
   match s.lastOp with
@@ -165,6 +169,7 @@ def run (cfg : Cfg) (m : Mem) (fs : FS Name) (op : Op) : Mem × FS Name × Res :
 /-- the model's answer to the harness's recovery: a new process (memory cache off), the listing, every
 listed blob read and its metainfo sidecar read, the on-demand regeneration, both again -/
 def recoverToks (t : Tab) (cfg0 : Cfg) (fs : FS Name) : List String :=
+  let t' := t
   let cfg := { cfg0 with mem := false }
   let (m0, fs0, _) := run cfg {} fs .restart
   let names := sortStr (listNames fs0)
@@ -181,6 +186,14 @@ def recoverToks (t : Tab) (cfg0 : Cfg) (fs : FS Name) : List String :=
     match blobOf t n with
     | none => (m2, fs2, base)
     | some b =>
+      -- the origin's metainfo request with a backend that does not hold the blob
+      let (m2, fs2, rq) := run cfg m2 fs2 (.metareq n none)
+      let mrToks := match rq with
+        | .found t => ["mr=200", if (blobOf t' n).map t'.genMI = some t then "mv=valid" else "mv=wrong"]
+        | .notFound => ["mr=404", "mv=-"]
+        | .accepted => ["mr=202", "mv=-"]
+        | _ => ["mr=500", "mv=-"]
+      let base := base ++ mrToks
       let (m3, fs3, r3) := run cfg m2 fs2 (.refresh n b)
       let (m4, fs4, r4) := run cfg m3 fs3 (.read n)
       let (m5, fs5, r5) := run cfg m4 fs4 (.getmeta n)
@@ -219,6 +232,14 @@ def crashMon (sections : List (List String)) (at_ : String) : List String :=
           (if !(rd.startsWith "bytes=") ∧ rd ≠ "notfound" ∧ rd ≠ "-" then [pf "listed-blob-unreadable" s!"blob {short}: {rd}"] else []) ++
           (if gm = "err" then [pf "metainfo-unreadable" s!"blob {short}: the metainfo sidecar fails with an error that is not IsNotExist (getMetaInfo answers 500 for ever)"] else []) ++
           (if gm.startsWith "found=" then [pf "metainfo-wrong" s!"blob {short}: a metainfo that is not the blob's is served"] else []) ++
+          (match kv? sec "mr" with
+           | none => []
+           | some mr =>
+             let mv := (kv? sec "mv").getD "-"
+             if rd.startsWith "bytes=" ∧ (mr ≠ "200" ∨ mv ≠ "valid") then
+               [pf "metainfo-request-failed-for-cached-blob" s!"blob {short} is served, its metainfo request (backend without the blob) answers {mr} {mv}"]
+             else if mr ≠ "200" ∧ mr ≠ "404" then [pf "metainfo-request-error" s!"blob {short}: the metainfo request answers {mr}"]
+             else []) ++
           (match kv? sec "rf" with
            | none => []
            | some rf =>
@@ -307,7 +328,7 @@ end C05
 
 /-
   Machine `ocs`: a metainfo request through the real server on a tree a crash can leave.
-    one meta blob=<xhex> pl=<n> tree=<listing> name=<hex digest> mi=<xhex> => first=<200|202> final=valid dl=ok
+    one meta blob=<xhex> pl=<n> backend=<0|1> tree=<listing> name=<hex digest> mi=<xhex> cached=<0|1> => first=<200|202|404> final=<valid|code404> dl=<ok|code404>
 -/
 namespace C05Srv
 
@@ -321,30 +342,35 @@ def step (_ : Unit) (kind : String) (args impl : List String) : Option (Unit × 
     let cfg := C05.mkCfg tab 0 false
     let fs ← C05.tree? (list? ((kv? rest "tree").getD "-"))
     let (m0, fs0, _) := C05.run cfg {} fs .restart
-    -- getMetaInfo: a sidecar that decodes is served, anything else starts the refresh (202)
-    let (m1, fs1, r1) := C05.run cfg m0 fs0 (.getmeta name)
-    let first := match r1 with
+    let backend : Option Bytes := if (kv? rest "backend") = some "0" then none else some blob
+    -- getMetaInfo: a sidecar that decodes is served; a cached blob gets its metainfo generated; else the backend
+    let code (r : Res) : String := match r with
       | .found t => if t = mi then "200" else "200-wrong"
-      | _ => "202"
-    let (m2, fs2, _) := if first = "202" then C05.run cfg m1 fs1 (.refresh name blob) else (m1, fs1, Res.ok)
-    let (m3, fs3, r3) := C05.run cfg m2 fs2 (.getmeta name)
-    let final := match r3 with
-      | .found t => if t = mi then "valid" else "wrong"
-      | _ => "absent"
+      | .accepted => "202"
+      | .notFound => "404"
+      | _ => "500"
+    let (m1, fs1, r1) := C05.run cfg m0 fs0 (.metareq name backend)
+    let first := code r1
+    -- polled until it is no longer 202
+    let (m3, fs3, r3) := if first = "202" then C05.run cfg m1 fs1 (.metareq name backend) else (m1, fs1, r1)
+    let final := match code r3 with
+      | "200" => "valid"
+      | "200-wrong" => "wrong"
+      | c => s!"code{c}"
     let (_, _, r4) := C05.run cfg m3 fs3 (.read name)
     let dl := match r4 with
       | .bytes b => if b = blob then "ok" else "wrong"
-      | _ => "notfound"
+      | _ => "code404"
     let iFirst := (kv? impl "first").getD "-"
     let iFinal := (kv? impl "final").getD "-"
     let iDl := (kv? impl "dl").getD "-"
     let pf (key detail : String) := s!"side=impl key={key} {detail}"
+    let cached := (kv? rest "cached") = some "1"
     let pfs :=
-      (if iFirst ≠ "200" ∧ iFirst ≠ "202" then [pf s!"metainfo-request-error.code{iFirst}" s!"the first metainfo request is answered {impl}"] else []) ++
-      (if iFirst = "200" ∨ iFirst = "202" then
-        (if iFinal ≠ "valid" then [pf s!"metainfo-never-served.{iFinal}" s!"polling the metainfo request ends with {iFinal}"] else []) ++
-        (if iFinal = "valid" ∧ iDl ≠ "ok" then [pf s!"blob-not-served.{iDl}" "the metainfo is served, the blob is not"] else [])
-       else [])
+      (if iFirst ≠ "200" ∧ iFirst ≠ "202" ∧ iFirst ≠ "404" then [pf s!"metainfo-request-error.code{iFirst}" s!"the first metainfo request is answered {impl}"] else []) ++
+      (if cached ∧ iFinal ≠ "valid" then [pf s!"metainfo-never-served.cached-blob-{iFinal}" s!"the blob is in the cache, its metainfo request ends with {iFinal} (backend holds it: {backend.isSome})"] else []) ++
+      (if !cached ∧ backend.isSome ∧ iFinal ≠ "valid" then [pf s!"metainfo-never-served.{iFinal}" s!"the backend holds the blob, polling the metainfo request ends with {iFinal}"] else []) ++
+      (if iFinal = "valid" ∧ iDl ≠ "ok" then [pf s!"blob-not-served.{iDl}" "the metainfo is served, the blob is not"] else [])
     pure ((), { obs := [s!"first={first}", s!"final={final}", s!"dl={dl}"], branch := s!"meta.{first}", propfails := pfs })
   | _, _ => none
 
